@@ -125,9 +125,22 @@ def run(ctx, impl_only=False):
             if ctx.rng.random() < 0.3 and isinstance(y, list):
                 y = list(y); ctx.rng.shuffle(y)
             cases.append((x, y, (nm,)))
-            if ctx.rng.random() < 0.3:
-                other = ctx.rng.choice([o for o in names[1:] if o != nm])
-                cases.append((x, y, (nm, other)))
+            if ctx.rng.random() < 0.4:
+                others = [o for o in names[1:] if o != nm and NORMALISER_OF[o] != base]
+                other = others[len(cases) % len(others)]
+                fn2, keys2 = C11.NORMALISERS[NORMALISER_OF[other]]
+                y2 = C11.apply_normaliser(ctx.rng, y, fn2, keys2, p=0.6)          # altered in what either option ignores
+                cases.append((x, y2, (nm, other)))
+    # (3) pairs of options of one family, both normalisers applied everywhere they can be (keys included)
+    families = [('ignore_string_case', 'ignore_string_type_changes'), ('ignore_string_type_changes', 'ignore_string_case'),
+                ('ignore_numeric_type_changes', 'significant_digits'), ('significant_digits_0', 'ignore_numeric_type_changes'),
+                ('ignore_string_case', 'use_enum_value'), ('truncate_datetime', 'default_timezone')]
+    for (n1, n2) in families:
+        f1, k1 = C11.NORMALISERS[NORMALISER_OF[n1]]; f2, k2 = C11.NORMALISERS[NORMALISER_OF[n2]]
+        for _ in range(max(6, n // 8)):
+            x = C11.gen_value(ctx, NORMALISER_OF[n1])
+            y = C11.apply_normaliser(ctx.rng, C11.apply_normaliser(ctx.rng, x, f1, k1, p=0.9), f2, k2, p=0.9)
+            cases.append((x, y, (n1, n2)))
     for (a, b, combo) in cases:
         kw = {}
         for nm in combo:
